@@ -1605,7 +1605,7 @@ def _listed_before_buildtype(scn, sid, name):
     return 'buildtype' in names and name in names and names.index(name) < names.index('buildtype')
 
 
-def classify(case, okey, e, got):
+def classify(case, okey, e, got, obs=None):
     fam = case['fam']
     scn = case['scn']
     parts = okey.split(':')
@@ -1644,8 +1644,11 @@ def classify(case, okey, e, got):
     if fam in ('prefix-subdecoy', 'prefix-subdecoy-flag') and case['meta'].get('decoy') in ('PS', 'MS', 'CS') and \
             (name == 'prefix' or name in SPECIAL_DIRS):
         # sub:prefix=... given by the parent's default_options (PS), a machine file (MS) or the command line (CS)
+        # (directory defaults that follow a wrongly changed prefix are the same defect as the changed prefix)
+        pe = case['exp'].get(where + ':prefix')
+        moved = name == 'prefix' or (obs is not None and pe is not None and obs.get(where + ':prefix') != pe[1])
         return 'C07:prefix:subproject-addressed-prefix:from-%s:%s' % (
-            case['meta']['decoy'], 'build-prefix-changed' if name == 'prefix' else 'parent-directory-options-changed')
+            case['meta']['decoy'], 'build-prefix-changed' if moved else 'parent-directory-options-changed')
     if fam in ('prefix-subdecoy', 'prefix-subdecoy-flag') and where == 'top2' and name in SPECIAL_DIRS and \
             got == ref_dir_default(name, case['meta']['decoy_prefix']):
         srcs = ''.join(case['meta'].get('prefix_sources', []))
@@ -1765,7 +1768,7 @@ def judge(case, res, tier):
         elif got in acceptable and type(got) in [type(x) for x in acceptable if x == got]:
             st['strong' if strong else 'weak'] += 1
         else:
-            probs.append((classify(case, okey, e, got), '%s: expected %s, observed %r (tier %s, %s)' % (
+            probs.append((classify(case, okey, e, got, res['obs']), '%s: expected %s, observed %r (tier %s, %s)' % (
                 okey, how, got, tier, json.dumps(meta, default=repr))))
     # every observed effective value is a valid value of the option that was asked for
     for okey, got in res['obs'].items():
@@ -2490,6 +2493,80 @@ def work_pin(case):
     return case['id'], probs
 
 
+# ===============================================================================================================
+# Part K: ONE reading of "buildtype sets debug/optimization unless they are given explicitly" for every value of buildtype.
+# Where a lower source gives debug / optimization explicitly and a higher source gives only a buildtype, the families above accept
+# both readings case by case (the higher buildtype stands for its debug/optimization pair and wins -- "-Dbuildtype=debugoptimized is
+# the same as -Ddebug=true -Doptimization=2" -- or the explicit values stay).  Whichever it is, it is a rule about sources: it cannot
+# depend on WHICH buildtype the higher source names.  One case = one structure (lower source, what it gives, higher source); the
+# higher source names each of the five buildtypes in turn, the explicit values always differ from the pair of that buildtype.
+READING_PAIRS = [('P', 'C'), ('P', 'M'), ('M', 'C')]
+
+
+def reading_cases(pairs=None):
+    cases = []
+    for low, high in (READING_PAIRS if pairs is None else pairs):
+        for b0 in (None, 'release'):                # the lower source may also name a buildtype, listed before its explicit values
+            for names in (['debug'], ['optimization'], ['debug', 'optimization']):
+                cases.append({'id': '%s-under-%s:%s:%s' % (low, high, b0 or 'no-buildtype', '+'.join(names)), 'low': low, 'high': high,
+                              'b0': b0, 'names': names})
+    return cases
+
+
+def reading_scn(case, bt):
+    d, o = BUILDTYPE_TABLE[bt]
+    scn = new_scn(False, False)
+    explicit = {}
+    if case['b0']:
+        put(scn, case['low'], 'buildtype', case['b0'])
+    for nm in case['names']:
+        explicit[nm] = (not d) if nm == 'debug' else 'g'        # (no buildtype stands for optimization g)
+        put(scn, case['low'], nm, explicit[nm])
+    put(scn, case['high'], 'buildtype', bt)
+    scn['obs'] = [['top', 'buildtype'], ['top', 'debug'], ['top', 'optimization']]
+    return scn, explicit
+
+
+def work_reading(task):
+    case, tiers = task
+    probs = []
+    readings = {}
+    for tier in tiers:
+        per = {}
+        for bt in BUILDTYPE_TABLE:
+            scn, explicit = reading_scn(case, bt)
+            res = run_a(scn) if tier == 'A' else run_b(scn)
+            tag = '%s: %s gives %s%s, %s gives buildtype=%s (tier %s)' % (
+                case['id'], case['low'], ('buildtype=%s, ' % case['b0']) if case['b0'] else '',
+                ', '.join('%s=%s' % (k, cstr(v)) for k, v in explicit.items()), case['high'], bt, tier)
+            if res.get('crash') or res['rejected']:
+                probs.append(('C07:buildtype:reading:valid-configuration-fails', '%s: %r' % (tag, res.get('crash') or res['rejected'])))
+                continue
+            implied = dict(zip(('debug', 'optimization'), BUILDTYPE_TABLE[bt]))
+            r = set()
+            for nm, ev in explicit.items():
+                got = res['obs'].get('top:' + nm, '<<missing>>')
+                r.add('buildtype-wins' if got == implied[nm] else 'explicit-stays' if got == ev else 'other')
+                if got != implied[nm] and got != ev:
+                    probs.append(('C07:buildtype:reading:neither-explicit-nor-implied-value', '%s: %s is %r' % (tag, nm, got)))
+            if res['obs'].get('top:buildtype') != bt:
+                probs.append(('C07:buildtype:reading:buildtype-not-in-effect', '%s: buildtype is %r' % (tag, res['obs'].get('top:buildtype'))))
+            per[bt] = '+'.join(sorted(r))
+        readings[tier] = per
+        kinds = sorted(set(per.values()) - {'other'})
+        if len(kinds) > 1:
+            current = case['b0'] or 'debug'         # the buildtype in effect below the higher source ('debug' is the documented default)
+            stays = sorted(b for b, x in per.items() if x == 'explicit-stays')
+            if stays == [current] and all(x == 'buildtype-wins' for b, x in per.items() if b != current):
+                key = 'C07:buildtype:higher-source-buildtype-equal-to-the-one-in-effect-does-not-set-debug-optimization'
+            else:
+                key = 'C07:buildtype:reading-depends-on-the-buildtype-value'
+            probs.append((key, '%s: %s gives %s%s (each time other than what the buildtype stands for); %s gives buildtype=<b>: %s (tier %s)' % (
+                case['id'], case['low'], ('buildtype=%s, ' % case['b0']) if case['b0'] else '', ' and '.join(case['names']), case['high'],
+                ', '.join('%s -> %s' % (b, x) for b, x in per.items()), tier)))
+    return case['id'], probs, readings
+
+
 def require_prefix_spelling(ck, pspell, tier, sources, hows):
     """Anti-vacuity of the prefix-spelling dimension: every source gave the effective prefix in every non-canonical spelling, for a
     prefix that has a row in the documented table (only there can a default fail to follow), and so did meson configure."""
@@ -2674,6 +2751,33 @@ def main():
                 nbad += 1
                 ck.violation(key, what, {'tier': 'P', 'case': {'id': cid}})
         ck.part('pin', cases=len(pc), violating=nbad)
+    if ck.want('K'):
+        from verif import mesonproc as mp
+        mp.preimport()
+        kc = reading_cases()
+        b_ids = {c['id'] for c in reading_cases(None if ck.thorough else READING_PAIRS[:1])}
+        nbad = 0
+        seen_readings = {}
+        nruns = {'A': 0, 'B': 0}
+        for cid, probs, readings in pmap(work_reading, [(c, ['A', 'B'] if c['id'] in b_ids else ['A']) for c in kc]):
+            classes.add('K:' + cid.split(':')[0])
+            seen = set()
+            for tier, per in readings.items():
+                evaluations += len(per)
+                nruns[tier] += len(per)
+                for x in per.values():
+                    seen_readings[x] = seen_readings.get(x, 0) + 1
+            for key, what in probs:
+                if key in seen:
+                    continue
+                seen.add(key)
+                nbad += 1
+                ck.violation(key, what, {'tier': 'K', 'case': {'id': cid}})
+        ck.part('buildtype_one_reading', structures=len(kc), buildtype_values=len(BUILDTYPE_TABLE), tierA_runs=nruns['A'], tierB_setups=nruns['B'],
+                readings_observed=dict(sorted(seen_readings.items())), violating=nbad)
+        ck.require(nruns['A'] == len(kc) * len(BUILDTYPE_TABLE) or nbad, 'buildtype reading: not every structure x buildtype was observed')
+        ck.require(nruns['B'] > 0 or nbad, 'buildtype reading: no tier B setup')
+        ck.require(seen_readings.get('buildtype-wins', 0) + seen_readings.get('explicit-stays', 0) > 0, 'buildtype reading: no reading observed')
     if os.environ.get('C07_SHOW_PARTS'):
         print(json.dumps({k: v for k, v in ck.parts.items() if 'spelling' in k}, indent=1, sort_keys=True))
     ck.assume('reference order transcribed from Builtin-options.md ("The value is overridden in this order"), Machine-files.md '
@@ -2694,6 +2798,9 @@ def main():
               'the documented default for the new prefix (weak); at setup they must follow the prefix')
     ck.assume('meson configure giving buildtype: explicit debug/optimization of the same command win; against an explicit value of an '
               'earlier command either outcome is accepted (weak), as for a lower-priority source')
+    ck.assume('buildtype, one reading: whichever of the two accepted readings holds for "lower source gives debug/optimization, higher '
+              'source gives a buildtype", it is the same for every value of that buildtype (a rule about sources cannot depend on whether '
+              'the buildtype named happens to be the one already in effect)')
     ck.assume('tier A replicates the two inline cross-build filtering steps of Environment.__init__; tier B runs the real thing')
     ck.assume('unspecified and skipped: unprefixed opt=value for an option only the subproject declares; integer/free-array option without value:; '
               'repeated array elements; build.* options in native builds; what sub:prefix means for the subproject (it must not change the build\'s prefix); abs paths inside prefix; deprecated-option remapping')
@@ -2725,6 +2832,18 @@ def replay(ck):
         c = [x for x in redeclare_cases() if x['id'] == case['id']][0]
         print('replay redeclare case', c['id'], '| old:', c['old'], '| value:', c['value'], '| new:', c['new'])
         cid, probs = work_redeclare(c)
+        for k, w in probs:
+            print('observed:', k, w)
+        print('still violates' if probs else 'no violation')
+        sys.exit(1 if probs else 0)
+    if tier == 'K':
+        from verif import mesonproc as mp
+        mp.preimport()
+        c = [x for x in reading_cases() if x['id'] == case['id']][0]
+        print('replay buildtype-reading case', c)
+        cid, probs, readings = work_reading((c, ['A', 'B']))
+        print('observed readings per buildtype of the higher source:', json.dumps(readings, sort_keys=True))
+        print('expected: the same reading for every buildtype')
         for k, w in probs:
             print('observed:', k, w)
         print('still violates' if probs else 'no violation')
